@@ -1,5 +1,8 @@
 --------------------------- MODULE MC_TimeOverride ---------------------------
 EXTENDS TimeOverride, Json
+\* 1969-12-31 relative to the base date 2024-12-30: the clock before the epoch
+D1969 == -20088
+MCDays == {0, 1, 2, D1969}
 View == <<override, depth>>
 Emit == PrintT(ToJson([f |-> override, op |-> op', arg |-> arg', res |-> res', t |-> override']))
 =============================================================================
